@@ -434,6 +434,18 @@ def run(ctx: Context) -> None:
             ok = bool(raises) and all(n.rsplit('.', 1)[-1] == 'NoSuchCoordinateError' for n in names)
             ctx.check('R17.5', ok, "a missing time coordinate is reported as NoSuchCoordinateError", tc, raises[0] if raises else tc.node,
                       construct=f"{tc.short} raises {sorted(set(names))}")
+            if tc.qualname != f"{BASE}.time_coordinate":
+                # a convention that knows its time variable by name refuses only when that name is absent: to_netcdf reads any
+                # refusal as "no time variable" and then leaves the units as xarray writes them
+                from .common import facts as _facts
+                odd = []
+                for r in raises:
+                    for t, pol in _facts(ctx, tc, r, expand=False):
+                        if not (pol is False and ' in self.dataset' in t and 'dtype' not in t):
+                            odd.append(f"`{t}` is {pol}")
+                ctx.check('R17.5', not odd, "a time variable known by name is the time coordinate whenever the dataset has it - decoded to datetime64, to cftime objects, or not decoded: "
+                          "the refusal depends on nothing but the name being absent", tc, raises[0] if raises else tc.node,
+                          construct=f"{tc.short}: other conditions leading to a refusal: {odd or 'none'}")
         # discovery criteria of the generic time coordinate: nothing but "decoded from '<unit> since <epoch>'"
         gtc = ctx.func(f"{BASE}.time_coordinate")
         gflow = ctx.flow(gtc)
